@@ -412,11 +412,17 @@ class ExprGeneratorExp(Expr):
     """Yielded element."""
     generators: Sequence[Expr]
     """Generators iterated on."""
+    parenthesized: bool = True
+    """Whether to write parentheses (not needed when the generator is the sole argument of a call)."""
 
     def iterate(self, *, flat: bool = True) -> Iterator[str | Expr]:
+        if self.parenthesized:
+            yield "("
         yield from _yield(self.element, flat=flat)
         yield " "
         yield from _join(self.generators, " ", flat=flat)
+        if self.parenthesized:
+            yield ")"
 
 
 # YORE: EOL 3.9: Replace `**_dataclass_opts` with `slots=True` within line.
@@ -938,6 +944,8 @@ def _build_call(node: ast.Call, parent: Module | Class, **kwargs: Any) -> Expr:
     function = _build(node.func, parent, **kwargs)
     positional_args = [_build(arg, parent, **kwargs) for arg in node.args]
     keyword_args = [_build(kwarg, parent, function=function, **kwargs) for kwarg in node.keywords]
+    if len(positional_args) == 1 and not keyword_args and isinstance(positional_args[0], ExprGeneratorExp):
+        positional_args[0].parenthesized = False
     return ExprCall(function, [*positional_args, *keyword_args])
 
 
